@@ -135,3 +135,20 @@ func verifConcretize(v int, n int) int {
 }
 func verifTaintString(s string) string { return s }
 func verifStringTainted(s string) bool { return false }
+
+func verifInSet(c byte, ranges string) bool {
+	for i := 0; i+1 < len(ranges); i += 2 {
+		if c >= ranges[i] && c <= ranges[i+1] {
+			return true
+		}
+	}
+	return false
+}
+func verifAllInSet(s string, ranges string) bool {
+	for i := 0; i < len(s); i++ {
+		if !verifInSet(s[i], ranges) {
+			return false
+		}
+	}
+	return true
+}
